@@ -390,10 +390,15 @@ func (r *Run) concretise(t *Term, what string) int64 {
 		endPath("infeasible", "no more values for %s", what)
 	}
 	v := r.sol.Value(t)
-	r.sol.Pop()
 	val := BV(v, t.w).Int()
-	alt := append(append([]Decision{}, r.taken...), Decision{Kind: 'c', Excl: append(append([]int64{}, excl...), val)})
-	r.newWork = append(r.newWork, alt)
+	// is there another value at all?  (saves re-executing the whole prefix only to find that there is none)
+	r.sol.Assert(Not(Eq(t, BVi(val, t.w))))
+	more := r.sol.Check() != "unsat"
+	r.sol.Pop()
+	if more {
+		alt := append(append([]Decision{}, r.taken...), Decision{Kind: 'c', Excl: append(append([]int64{}, excl...), val)})
+		r.newWork = append(r.newWork, alt)
+	}
 	r.taken = append(r.taken, Decision{Kind: 'c', Val: val, HasVal: true})
 	r.addPC(Eq(t, BVi(val, t.w)))
 	return val
